@@ -5,12 +5,28 @@ import hashlib, json, os, re, subprocess, sys, time, shutil
 
 VERIF = os.path.dirname(os.path.dirname(os.path.abspath(__file__)))
 REPO = os.environ.get("VERIF_REPO", "/repo")
-WORK = os.path.join(VERIF, ".work")
-EVID = os.path.join(VERIF, "evidence")
+WORK = os.environ.get("VERIF_WORK") or os.path.join(VERIF, ".work")
+EXPERIMENT = os.path.realpath(REPO) != "/repo"      # a scratch copy of the repository (seeded-change experiments only; never registered)
+EVID = os.path.join(WORK, "evidence") if EXPERIMENT else os.path.join(VERIF, "evidence")
 ENV = dict(os.environ, CARGO_NET_OFFLINE="true", CARGO_TERM_COLOR="never")
 NCPU = os.cpu_count() or 4
 
 EXIT_OK, EXIT_VIOLATION, EXIT_UNDECIDED = 0, 1, 2
+
+
+def crate_dir(name):
+    """the harness / replay crates name the repository as path dependency /repo; for an experiment on a scratch copy
+    (VERIF_REPO) a copy of the crate with the path rewritten is used, under VERIF_WORK"""
+    src = os.path.join(VERIF, name)
+    if not EXPERIMENT:
+        return src
+    dst = os.path.join(WORK, name + "-src")
+    os.makedirs(dst, exist_ok=True)
+    subprocess.run(["rsync", "-a", "--delete", "--exclude", "target", "--exclude", "Cargo.lock", src + "/", dst + "/"], check=True)
+    p = os.path.join(dst, "Cargo.toml")
+    t = open(p).read().replace('path = "/repo"', 'path = "%s"' % os.path.realpath(REPO))
+    open(p, "w").write(t)
+    return dst
 
 
 def tier_seed(argv_tier=None):
@@ -77,7 +93,11 @@ def mir_dump(package=None, force=False):
     # clean older dumps of the same package
     for f in os.listdir(WORK):
         if f.startswith(f"mir-{package or 'rateslib'}-") and f != name:
-            try: os.remove(os.path.join(WORK, f))
+            fp = os.path.join(WORK, f)
+            try:
+                if ".tmp" in f and time.time() - os.path.getmtime(fp) < 3600:
+                    continue          # another check is writing this dump right now
+                os.remove(fp)
             except OSError: pass
     tdir = os.path.join(WORK, "mir-target")
     nonce = "mirsym_run_%d_%d" % (os.getpid(), int(time.time()))
@@ -171,7 +191,7 @@ def save_replay(pid, n, obj):
 
 
 # --------------------------------------------------------------------------- engine K: Kani
-KANI_DIR = os.path.join(VERIF, "kani")
+KANI_DIR = crate_dir("kani")
 KANI_TARGET = os.path.join(WORK, "kani-target")
 
 
@@ -179,7 +199,7 @@ def kani_schema():
     """harness -> list of (name, type) parsed from kani/src/harness.rs (the order symbolic inputs are drawn)"""
     src = open(os.path.join(KANI_DIR, "src", "harness.rs")).read()
     sch = {}
-    for m in re.finditer(r"harness!\((\w+),\s*\d+,\s*\|([^|]*)\|", src):
+    for m in re.finditer(r"harness(?:_f)?!\((\w+),\s*\d+,\s*\|([^|]*)\|", src):
         sch[m.group(1)] = [tuple(x.strip() for x in a.split(":")) for a in m.group(2).split(",") if a.strip()]
     for m in re.finditer(r"index_left_harness!\((\w+),\s*(\d+)\)", src):
         n = int(m.group(2))
